@@ -22,6 +22,17 @@ Theorem c11_roundtrip : forall b : list member,
 Proof. exact roundtrip. Qed.
 Print Assumptions c11_roundtrip.
 
+(** Extract REPLACES the baggage a context already carries by the parsed header (never merges);
+    without a header, or with an empty one, the context is left as it is.  (An invalid header:
+    [extract_into parent (Some s) = (parent, true)] whenever [parse s = None], by definition.) *)
+Theorem c11_extract_replaces : forall parent b : list member,
+  unique_keys b = true -> forallb member_accepted b = true -> blen b <= LIMIT_MEMBERS ->
+  header_within_limits (baggage_string b) = true -> b <> [] ->
+  extract_into parent (inject b) = (b, false) /\
+  extract_into parent None = (parent, true) /\ extract_into parent (Some []) = (parent, true).
+Proof. exact extract_into_replaces. Qed.
+Print Assumptions c11_extract_replaces.
+
 (** The same, starting from the constructors: members as NewMemberRaw accepts
     them (token keys), put together by New (duplicates: last one wins). *)
 Theorem c11_roundtrip_new : forall ms b,
